@@ -454,3 +454,13 @@ def inplace_history(res, case, other_costs, algo, policies=("all", "any"), what_
                     {"case": case, "algo": algo, "policy": pol, "history": [full_costs(case), other_costs]})
                 return False
     return True
+
+
+def replay_inplace(inp):
+    """Replays a recorded in-place history (`inplace_history`) on the current code; returns (ok, message)."""
+    from .common import Result
+
+    r = Result()
+    inplace_history(r, inp["case"], inp["history"][1], inp["algo"], policies=(inp.get("policy", "all"),))
+    ok = not r.concrete
+    return ok, ("ok: the recorded history gives the results of fresh inputs" if ok else "still fails: " + r.concrete[0]["what"])
